@@ -64,11 +64,12 @@ Fixpoint ok_ast (s0 : st) (a : ast) : Prop :=
 
 (** ** [var] *)
 Lemma var_sem s n j r s' :
-  Inv s → last_len s = None → vars s !! n = Some j → var n s = (r, s') →
-  ∃ u, r = Ok u ∧ Inv s' ∧ extends s s' ∧ last_len s' = None ∧ valid s' u ∧
+  Inv s → last_len s = None → max_nodes s = None → vars s !! n = Some j → var n s = (r, s') →
+  ∃ u, r = Ok u ∧ Inv s' ∧ extends s s' ∧ last_len s' = None ∧
+       max_nodes s' = None ∧ valid s' u ∧
        ∀ ρ, denv s' u ρ = ρ n.
 Proof.
-  intros HI Hoff Hj Hrun. unfold var in Hrun.
+  intros HI Hoff Hmx Hj Hrun. unfold var in Hrun.
   apply try_to_reorder_inert in Hrun as (r1&s1&Hrun&Hcase).
   set (s0 := s <| rctx := true |>) in *.
   assert (HI0 : Inv s0) by (by apply Inv_rctx).
@@ -79,11 +80,13 @@ Proof.
   2: by apply valid_m1. 2: by apply valid_1.
   2: by rewrite (lvl_term s0 HI0). 2: by rewrite (lvl_term s0 HI0).
   destruct r1 as [u|e]; cycle 1.
-  { destruct Hr as (_&[l Hl]&_). change (last_len s0) with (last_len s) in Hl. congruence. }
+  { by destruct (benign_never s0 e Hoff Hmx (proj1 Hr)). }
   destruct Hcase as [[? _]|[-> ->]]; [done|].
   destruct Hr as (Hu&_&HD). exists u.
   split; [done|]. split; [by apply Inv_rctx|]. split; [done|]. split.
   { cbn. rewrite (frame_same _ _ Hf1). done. }
+  split.
+  { cbn. rewrite (frame_max_nodes _ _ Hf1). done. }
   split; [done|]. intros ρ. unfold denv. rewrite D_rctx, HD.
   rewrite (D_1 s0 HI0), (D_m1 s0 HI0).
   destruct He1 as (_&_&El). cbn. rewrite <- El. change (lvl2var s0) with (lvl2var s).
@@ -97,18 +100,20 @@ Qed.
 
 (** [apply] with the disabled reordering kept disabled *)
 Lemma apply_sem s op u v w r s' f :
-  Inv s → last_len s = None →
+  Inv s → last_len s = None → max_nodes s = None →
   op ∈ py_vocab → conn_sem op = Some f →
   valid s u → ovalid s v → ovalid s w → arity_ok op v w = true →
   apply op u v w s = (r, s') →
-  ∃ x, r = Ok x ∧ Inv s' ∧ extends s s' ∧ last_len s' = None ∧ valid s' x ∧
+  ∃ x, r = Ok x ∧ Inv s' ∧ extends s s' ∧ last_len s' = None ∧
+       max_nodes s' = None ∧ valid s' x ∧
     ∀ ρ, denv s' x ρ = f (denv s u ρ) (odenv s v ρ) (odenv s w ρ).
 Proof.
-  intros HI Hoff Hop Hf Hu Hv Hw Har Hrun.
+  intros HI Hoff Hmx Hop Hf Hu Hv Hw Har Hrun.
   destruct (nrf_apply op u v w s r s' Hoff Hrun) as [Hoff' _].
-  destruct (apply_correct_lemma s op u v w r s' f HI Hoff Hop Hf Hu Hv Hw Har Hrun)
+  destruct (apply_correct_lemma s op u v w r s' f HI Hoff Hmx Hop Hf Hu Hv Hw Har Hrun)
     as (x&->&HI'&He&Hx&_&HD).
-  by exists x.
+  destruct (tsafe_apply op u v w s _ s' HI Hoff Hrun) as (_&_&Hfr&_).
+  exists x. split_and!; try done. by rewrite (frame_max_nodes _ _ Hfr).
 Qed.
 
 (** ** quantifiers: [qsem] (over level assignments) is [qbool] (over names) *)
@@ -183,13 +188,14 @@ Proof.
 Qed.
 
 Lemma quantify_sem s u xs fa r s' :
-  Inv s → last_len s = None → valid s u →
+  Inv s → last_len s = None → max_nodes s = None → valid s u →
   Forall (fun x => is_Some (vars s !! x)) xs →
   quantify u true (remove_dups xs) fa s = (r, s') →
-  ∃ x, r = Ok x ∧ Inv s' ∧ extends s s' ∧ last_len s' = None ∧ valid s' x ∧
+  ∃ x, r = Ok x ∧ Inv s' ∧ extends s s' ∧ last_len s' = None ∧
+       max_nodes s' = None ∧ valid s' x ∧
     ∀ ρ, denv s' x ρ = qbool fa xs (denv s u) ρ.
 Proof.
-  intros HI Hoff Hu Hdecl Hrun.
+  intros HI Hoff Hmx Hu Hdecl Hrun.
   destruct (nrf_quantify u true (remove_dups xs) fa s r s' Hoff Hrun) as [Hoff' _].
   set (lv := fun x => default 0 (vars s !! x)).
   assert (Hd' : Forall (fun x => is_Some (vars s !! x)) (remove_dups xs)).
@@ -199,9 +205,11 @@ Proof.
   { apply stdpp.sets.set_eq. intros l. rewrite !elem_of_list_to_set, !elem_of_list_fmap.
     split; intros (x&->&Hx); exists x; (split; [done|]); by apply elem_of_remove_dups. }
   fold lv in Hq. rewrite Eq in Hq.
-  destruct (quantify_spec s u true (remove_dups xs) fa _ r s' HI Hu Hoff
+  destruct (quantify_spec s u true (remove_dups xs) fa _ r s' HI Hu Hoff Hmx
               (f_equal fst Hq) Hrun) as (x&->&HI'&He&Hx&HD).
-  exists x. split; [done|]. split; [done|]. split; [done|]. split; [done|]. split; [done|].
+  destruct (tsafe_quantify u true (remove_dups xs) fa s _ s' HI Hoff Hrun) as (_&_&Hfr&_).
+  exists x. split; [done|]. split; [done|]. split; [done|]. split; [done|].
+  split; [by rewrite (frame_max_nodes _ _ Hfr)|]. split; [done|].
   intros ρ. apply bool_eq_iff. rewrite denv_aof, HD.
   destruct He as (_&_&El). unfold aof. rewrite <- El. fold (aof s ρ).
   apply (qsem_qbool s fa u xs (lv <$> xs) HI Hu). by apply declared_levels.
@@ -209,16 +217,19 @@ Qed.
 
 (** ** renaming *)
 Lemma rename_sem s u dvars r s' :
-  Inv s → last_len s = None → valid s u →
+  Inv s → last_len s = None → max_nodes s = None → valid s u →
   (∀ x y, (x, y) ∈ dvars → is_Some (vars s !! y)) →
   rename u dvars s = (r, s') →
-  ∃ x, r = Ok x ∧ Inv s' ∧ extends s s' ∧ last_len s' = None ∧ valid s' x ∧
+  ∃ x, r = Ok x ∧ Inv s' ∧ extends s s' ∧ last_len s' = None ∧
+       max_nodes s' = None ∧ valid s' x ∧
     ∀ ρ, denv s' x ρ = denv s u (fun v => ρ (ren dvars v)).
 Proof.
-  intros HI Hoff Hu Hdecl Hrun.
+  intros HI Hoff Hmx Hu Hdecl Hrun.
   destruct (nrf_rename u dvars s r s' Hoff Hrun) as [Hoff' _].
-  destruct (rename_spec s u dvars r s' HI Hu Hoff Hrun Hdecl) as (x&->&HI'&He&Hx&HD).
-  exists x. split; [done|]. split; [done|]. split; [done|]. split; [done|]. split; [done|].
+  destruct (rename_spec s u dvars r s' HI Hu Hoff Hmx Hrun Hdecl) as (x&->&HI'&He&Hx&HD).
+  destruct (tsafe_rename u dvars s _ s' HI Hoff Hrun) as (_&_&Hfr&_).
+  exists x. split; [done|]. split; [done|]. split; [done|]. split; [done|].
+  split; [by rewrite (frame_max_nodes _ _ Hfr)|]. split; [done|].
   intros ρ. rewrite !denv_aof, HD.
   destruct He as (_&_&El). unfold aof at 1. rewrite <- El. fold (aof s ρ).
   apply (D_indep_lt s HI); [done|]. intros j Hj.
@@ -236,140 +247,144 @@ Qed.
 
 (** ** the evaluator *)
 Definition eval_post (s0 s : st) (a : ast) (r : res Z) (s' : st) : Prop :=
-  ∃ u, r = Ok u ∧ Inv s' ∧ extends s s' ∧ last_len s' = None ∧ valid s' u ∧
+  ∃ u, r = Ok u ∧ Inv s' ∧ extends s s' ∧ last_len s' = None ∧
+       max_nodes s' = None ∧ valid s' u ∧
        ∀ ρ, denv s' u ρ = asem s0 a ρ.
 
 Lemma ok_ast_extends_decl s0 s n : extends s0 s → declared s0 n → declared s n.
 Proof. intros (_&E&_). unfold declared. by rewrite E. Qed.
 
 Lemma eval_ast_sem_gen a : ∀ s0 s r s',
-  Inv s0 → extends s0 s → Inv s → last_len s = None →
+  Inv s0 → extends s0 s → Inv s → last_len s = None → max_nodes s = None →
   ok_ast s0 a →
   eval_ast a s = (r, s') → eval_post s0 s a r s'.
 Proof.
   induction a as [b|n|z|op a IH|op a1 IH1 a2 IH2|a IHa b IHb c IHc|op ns a IH|ss a IH];
-    intros s0 s r s' HI0 He0 HI Hoff Hok Hrun.
+    intros s0 s r s' HI0 He0 HI Hoff Hmx Hok Hrun.
   - (* ABool *)
     cbn [eval_ast] in Hrun. unfold ret in Hrun. injection Hrun as <- <-.
     eexists. split; [done|]. split; [done|]. split; [reflexivity|]. split; [done|].
+    split; [done|].
     destruct b; (split; [by (apply valid_1 || apply valid_m1)|]); intros ρ; unfold denv; cbn [asem].
     + by apply D_1.
     + by apply D_m1.
   - (* AVar *)
     cbn [eval_ast ok_ast] in *. destruct (ok_ast_extends_decl s0 s n He0 Hok) as [j Hj].
-    destruct (var_sem s _ j r s' HI Hoff Hj Hrun) as (u&->&?&?&?&?&HD). by exists u.
+    destruct (var_sem s _ j r s' HI Hoff Hmx Hj Hrun) as (u&->&?&?&?&?&?&HD). by exists u.
   - (* ANum *)
     cbn [eval_ast ok_ast] in *. cbn [bind get] in Hrun.
     assert (Hz : valid s z) by (by apply (valid_extends s0 s)).
     unfold ensure in Hrun. rewrite (proj2 (mem_valid s z) Hz) in Hrun.
     cbn [bind ret] in Hrun. unfold ret in Hrun. injection Hrun as <- <-.
     exists z. split; [done|]. split; [done|]. split; [reflexivity|]. split; [done|].
-    split; [done|]. intros ρ. cbn [asem]. by apply denv_extends.
+    split; [done|]. split; [done|]. intros ρ. cbn [asem]. by apply denv_extends.
   - (* AOp1 *)
     cbn [eval_ast ok_ast] in *. destruct Hok as ([g Hg]&Hv&Har&Hok).
     destruct (eval_ast a s) as [ra s1] eqn:Ea.
-    destruct (IH s0 s ra s1 HI0 He0 HI Hoff Hok Ea) as (u&->&HI1&He1&Hoff1&Hu&HDu).
+    destruct (IH s0 s ra s1 HI0 He0 HI Hoff Hmx Hok Ea) as (u&->&HI1&He1&Hoff1&Hmx1&Hu&HDu).
     rewrite (bind_ok _ _ _ _ _ Ea) in Hrun.
-    destruct (apply_sem s1 op u None None r s' g HI1 Hoff1 Hv Hg Hu I I Har Hrun)
-      as (x&->&HI2&He2&Hoff2&Hx&HDx).
+    destruct (apply_sem s1 op u None None r s' g HI1 Hoff1 Hmx1 Hv Hg Hu I I Har Hrun)
+      as (x&->&HI2&He2&Hoff2&Hmx2&Hx&HDx).
     exists x. split; [done|]. split; [done|]. split; [by etrans|]. split; [done|].
-    split; [done|]. intros ρ. cbn [asem]. rewrite Hg, HDx, HDu. done.
+    split; [done|]. split; [done|]. intros ρ. cbn [asem]. rewrite Hg, HDx, HDu. done.
   - (* AOp2 *)
     cbn [eval_ast ok_ast] in *. destruct Hok as ([g Hg]&Hv&Har&Hok1&Hok2).
     destruct (eval_ast a1 s) as [ra s1] eqn:Ea.
-    destruct (IH1 s0 s ra s1 HI0 He0 HI Hoff Hok1 Ea) as (u&->&HI1&He1&Hoff1&Hu&HDu).
+    destruct (IH1 s0 s ra s1 HI0 He0 HI Hoff Hmx Hok1 Ea) as (u&->&HI1&He1&Hoff1&Hmx1&Hu&HDu).
     rewrite (bind_ok _ _ _ _ _ Ea) in Hrun.
     destruct (eval_ast a2 s1) as [rb s2] eqn:Eb.
-    destruct (IH2 s0 s1 rb s2 HI0 (transitivity He0 He1) HI1 Hoff1 Hok2 Eb)
-      as (v&->&HI2&He2&Hoff2&Hv2&HDv).
+    destruct (IH2 s0 s1 rb s2 HI0 (transitivity He0 He1) HI1 Hoff1 Hmx1 Hok2 Eb)
+      as (v&->&HI2&He2&Hoff2&Hmx2&Hv2&HDv).
     rewrite (bind_ok _ _ _ _ _ Eb) in Hrun.
     assert (Hu2 : valid s2 u) by (by apply (valid_extends s1 s2)).
     rewrite (arity_some op 1 v) in Har.
-    destruct (apply_sem s2 op u (Some v) None r s' g HI2 Hoff2 Hv Hg Hu2 Hv2 I Har Hrun)
-      as (x&->&HI3&He3&Hoff3&Hx&HDx).
+    destruct (apply_sem s2 op u (Some v) None r s' g HI2 Hoff2 Hmx2 Hv Hg Hu2 Hv2 I Har Hrun)
+      as (x&->&HI3&He3&Hoff3&Hmx3&Hx&HDx).
     exists x. split; [done|]. split; [done|]. split; [by etrans; [|etrans]|]. split; [done|].
-    split; [done|]. intros ρ. cbn [asem]. rewrite Hg, HDx. cbn [odenv].
+    split; [done|]. split; [done|]. intros ρ. cbn [asem]. rewrite Hg, HDx. cbn [odenv].
     rewrite (denv_extends s1 s2 u ρ He2 HI1 Hu), HDu, HDv. done.
   - (* AIte *)
     cbn [eval_ast ok_ast] in *. destruct Hok as (Hoka&Hokb&Hokc).
     destruct (eval_ast a s) as [ra s1] eqn:Ea.
-    destruct (IHa s0 s ra s1 HI0 He0 HI Hoff Hoka Ea) as (u&->&HI1&He1&Hoff1&Hu&HDu).
+    destruct (IHa s0 s ra s1 HI0 He0 HI Hoff Hmx Hoka Ea) as (u&->&HI1&He1&Hoff1&Hmx1&Hu&HDu).
     rewrite (bind_ok _ _ _ _ _ Ea) in Hrun.
     destruct (eval_ast b s1) as [rb s2] eqn:Eb.
-    destruct (IHb s0 s1 rb s2 HI0 (transitivity He0 He1) HI1 Hoff1 Hokb Eb)
-      as (v&->&HI2&He2&Hoff2&Hv2&HDv).
+    destruct (IHb s0 s1 rb s2 HI0 (transitivity He0 He1) HI1 Hoff1 Hmx1 Hokb Eb)
+      as (v&->&HI2&He2&Hoff2&Hmx2&Hv2&HDv).
     rewrite (bind_ok _ _ _ _ _ Eb) in Hrun.
     destruct (eval_ast c s2) as [rc s3] eqn:Ec.
-    destruct (IHc s0 s2 rc s3 HI0 (transitivity He0 (transitivity He1 He2)) HI2 Hoff2 Hokc Ec)
-      as (w&->&HI3&He3&Hoff3&Hw3&HDw).
+    destruct (IHc s0 s2 rc s3 HI0 (transitivity He0 (transitivity He1 He2)) HI2 Hoff2 Hmx2 Hokc Ec)
+      as (w&->&HI3&He3&Hoff3&Hmx3&Hw3&HDw).
     rewrite (bind_ok _ _ _ _ _ Ec) in Hrun.
     assert (Hu2 : valid s2 u) by (by apply (valid_extends s1 s2)).
     assert (Hu3 : valid s3 u) by (by apply (valid_extends s2 s3)).
     assert (Hv3 : valid s3 v) by (by apply (valid_extends s2 s3)).
     destruct (apply_sem s3 "ite" u (Some v) (Some w) r s' (fun a b c : bool => if a then b else c)
-                HI3 Hoff3) as (x&->&HI4&He4&Hoff4&Hx&HDx); try done.
+                HI3 Hoff3 Hmx3) as (x&->&HI4&He4&Hoff4&Hmx4&Hx&HDx); try done.
     { apply (bool_decide_eq_true_1 _). by vm_compute. }
     exists x. split; [done|]. split; [done|].
     split; [by etrans; [|etrans; [|etrans]]|]. split; [done|].
-    split; [done|]. intros ρ. cbn [asem]. rewrite HDx. cbn [odenv].
+    split; [done|]. split; [done|]. intros ρ. cbn [asem]. rewrite HDx. cbn [odenv].
     rewrite (denv_extends s2 s3 u ρ He3 HI2 Hu2), (denv_extends s1 s2 u ρ He2 HI1 Hu), HDu.
     rewrite (denv_extends s2 s3 v ρ He3 HI2 Hv2), HDv, HDw. done.
   - (* AQuant *)
     cbn [eval_ast ok_ast] in *. destruct Hok as (Hns&Hok).
     destruct (eval_ast a s) as [ra s1] eqn:Ea.
-    destruct (IH s0 s ra s1 HI0 He0 HI Hoff Hok Ea) as (u&->&HI1&He1&Hoff1&Hu&HDu).
+    destruct (IH s0 s ra s1 HI0 He0 HI Hoff Hmx Hok Ea) as (u&->&HI1&He1&Hoff1&Hmx1&Hu&HDu).
     rewrite (bind_ok _ _ _ _ _ Ea) in Hrun.
-    apply quantify_sem in Hrun as (x&->&HI2&He2&Hoff2&Hx&HDx); try done.
+    apply quantify_sem in Hrun as (x&->&HI2&He2&Hoff2&Hmx2&Hx&HDx); try done.
     2:{ rewrite Forall_fmap. eapply Forall_impl; [exact Hns|]. intros n Hn. cbn.
         apply (ok_ast_extends_decl s0 s1); [by etrans|done]. }
     exists x. split; [done|]. split; [done|]. split; [by etrans|]. split; [done|].
-    split; [done|]. intros ρ. cbn [asem]. rewrite HDx. apply qbool_ext. exact HDu.
+    split; [done|]. split; [done|]. intros ρ. cbn [asem]. rewrite HDx. apply qbool_ext. exact HDu.
   - (* ASubst *)
     cbn [eval_ast ok_ast] in *. destruct Hok as (Hss&Hok).
     destruct (eval_ast a s) as [ra s1] eqn:Ea.
-    destruct (IH s0 s ra s1 HI0 He0 HI Hoff Hok Ea) as (u&->&HI1&He1&Hoff1&Hu&HDu).
+    destruct (IH s0 s ra s1 HI0 He0 HI Hoff Hmx Hok Ea) as (u&->&HI1&He1&Hoff1&Hmx1&Hu&HDu).
     rewrite (bind_ok _ _ _ _ _ Ea) in Hrun.
     change (rename u (sub_ids ss) s1 = (r, s')) in Hrun.
-    apply rename_sem in Hrun as (x&->&HI2&He2&Hoff2&Hx&HDx); try done.
+    apply rename_sem in Hrun as (x&->&HI2&He2&Hoff2&Hmx2&Hx&HDx); try done.
     2:{ intros x y Hxy. unfold sub_ids in Hxy.
         apply elem_of_list_fmap in Hxy as ([o n]&[= -> ->]&Hin).
         rewrite Forall_forall in Hss.
         apply (ok_ast_extends_decl s0 s1 n); [by etrans|]. exact (Hss _ Hin). }
     exists x. split; [done|]. split; [done|]. split; [by etrans|]. split; [done|].
-    split; [done|]. intros ρ. cbn [asem]. rewrite HDx. apply HDu.
+    split; [done|]. split; [done|]. intros ρ. cbn [asem]. rewrite HDx. apply HDu.
 Qed.
 
 (** [eval_ast] on a manager satisfying the invariant, dynamic reordering
     disabled: the result denotes the reading [asem] of the tree, every old
     reference is kept ([extends]), the invariant holds afterwards *)
 Theorem eval_ast_sem s a r s' :
-  Inv s → last_len s = None → ok_ast s a →
+  Inv s → last_len s = None → max_nodes s = None → ok_ast s a →
   eval_ast a s = (r, s') →
-  ∃ u, r = Ok u ∧ Inv s' ∧ extends s s' ∧ last_len s' = None ∧ valid s' u ∧
+  ∃ u, r = Ok u ∧ Inv s' ∧ extends s s' ∧ last_len s' = None ∧
+       max_nodes s' = None ∧ valid s' u ∧
        ∀ ρ, denv s' u ρ = asem s a ρ.
-Proof. intros HI Hoff Hok Hrun. by apply (eval_ast_sem_gen a s s r s'). Qed.
+Proof. intros HI Hoff Hmx Hok Hrun. by apply (eval_ast_sem_gen a s s r s'). Qed.
 
 (** [add_expr] on the token spellings: lexing, parsing, evaluation under the
     decorator *)
 Theorem add_expr_sem lt rw P spellings ts a s r s' :
-  Inv s → last_len s = None →
+  Inv s → last_len s = None → max_nodes s = None →
   lex_all lt rw spellings = Some ts → parse P ts = Some a → ok_ast s a →
   add_expr lt rw P spellings s = (r, s') →
-  ∃ u, r = Ok u ∧ Inv s' ∧ extends s s' ∧ last_len s' = None ∧ valid s' u ∧
+  ∃ u, r = Ok u ∧ Inv s' ∧ extends s s' ∧ last_len s' = None ∧
+       max_nodes s' = None ∧ valid s' u ∧
        ∀ ρ, denv s' u ρ = asem s a ρ.
 Proof.
-  intros HI Hoff Hlex Hparse Hok Hrun. unfold add_expr in Hrun.
+  intros HI Hoff Hmx Hlex Hparse Hok Hrun. unfold add_expr in Hrun.
   apply try_to_reorder_inert in Hrun as (r1&s1&Hrun&Hcase).
   set (s0 := s <| rctx := true |>) in *.
   rewrite Hlex in Hrun. cbn [of_opt] in Hrun.
   rewrite (bind_ok _ _ s0 ts s0) in Hrun by done.
   rewrite Hparse in Hrun. cbn [of_opt] in Hrun.
   rewrite (bind_ok _ _ s0 a s0) in Hrun by done.
-  apply (eval_ast_sem_gen a s s0) in Hrun as (u&->&HI1&He1&Hoff1&Hu&HD);
-    [|done|done|by apply Inv_rctx|done|done].
+  apply (eval_ast_sem_gen a s s0) in Hrun as (u&->&HI1&He1&Hoff1&Hmx1&Hu&HD);
+    [|done|done|by apply Inv_rctx|done|done|done].
   destruct Hcase as [[? _]|[-> ->]]; [done|].
   exists u. split; [done|]. split; [by apply Inv_rctx|]. split; [done|]. split; [done|].
-  split; [done|]. intros ρ. rewrite <- HD. unfold denv. by rewrite D_rctx.
+  split; [done|]. split; [done|]. intros ρ. rewrite <- HD. unfold denv. by rewrite D_rctx.
 Qed.
 
 (** ** [to_expr] *)
@@ -562,20 +577,20 @@ Qed.
     (The evaluation may add the plain variable nodes [v] and cache entries,
     so the state is an extension, not the same state.) *)
 Theorem to_expr_roundtrip_ast s u :
-  Inv s → valid s u → last_len s = None →
+  Inv s → valid s u → last_len s = None → max_nodes s = None →
   ∃ a, to_expr_ast (S (S (nvars s))) u s = (Ok a, s) ∧
        to_expr u s = (Ok (expr_text a), s) ∧
        ∀ r s', eval_ast a s = (r, s') →
-         r = Ok u ∧ Inv s' ∧ extends s s' ∧ last_len s' = None.
+         r = Ok u ∧ Inv s' ∧ extends s s' ∧ last_len s' = None ∧ max_nodes s' = None.
 Proof.
-  intros HI Hu Hoff.
+  intros HI Hu Hoff Hmx.
   destruct (to_expr_ast_spec (S (S (nvars s))) s u HI Hu) as (a&Ea&Hok&Hsem); [lia|].
   exists a. split; [done|]. split.
   { unfold to_expr. cbn [bind get]. unfold ensure. rewrite (proj2 (mem_valid s u) Hu).
     rewrite (bind_ok _ _ s tt s) by done.
     pose proof (to_expr_rec_text (S (S (nvars s))) u s) as H. rewrite Ea in H. by destruct H. }
   intros r s' Hrun.
-  destruct (eval_ast_sem s a r s' HI Hoff Hok Hrun) as (x&->&HI'&He&Hoff'&Hx&HD).
+  destruct (eval_ast_sem s a r s' HI Hoff Hmx Hok Hrun) as (x&->&HI'&He&Hoff'&Hmx'&Hx&HD).
   split; [|done]. f_equal.
   apply (canonical_names s' HI'); [done|by apply (valid_extends s s')|].
   intros ρ. rewrite HD, Hsem. symmetry. by apply denv_extends.
@@ -690,14 +705,14 @@ Qed.
 (** [add_expr(to_expr(u)) = u] on the lexemes of the text: lexing, parsing
     and evaluation under the decorator return the very reference [u] *)
 Theorem to_expr_roundtrip s u :
-  Inv s → valid s u → last_len s = None →
+  Inv s → valid s u → last_len s = None → max_nodes s = None →
   ∃ a, to_expr u s = (Ok (expr_text a), s) ∧
        lex (te_spellings a) = Some (te_tokens a) ∧
        parse code_prec (te_tokens a) = Some a ∧
        ∀ r s', add_expr lex_alias reserved_words code_prec (te_spellings a) s = (r, s') →
-         r = Ok u ∧ Inv s' ∧ extends s s' ∧ last_len s' = None.
+         r = Ok u ∧ Inv s' ∧ extends s s' ∧ last_len s' = None ∧ max_nodes s' = None.
 Proof.
-  intros HI Hu Hoff.
+  intros HI Hu Hoff Hmx.
   destruct (to_expr_ast_spec (S (S (nvars s))) s u HI Hu) as (a&Ea&Hok&Hsem); [lia|].
   pose proof (to_expr_rec_text (S (S (nvars s))) u s) as Ht. rewrite Ea in Ht.
   destruct Ht as [Hshape Ht].
@@ -708,8 +723,8 @@ Proof.
   pose proof (parse_te_tokens a (te_shape_wf a Hshape)) as Hparse.
   split; [done|]. split; [done|].
   intros r s' Hrun.
-  destruct (add_expr_sem _ _ _ _ _ a s r s' HI Hoff Hlex Hparse Hok Hrun)
-    as (x&->&HI'&He&Hoff'&Hx&HD).
+  destruct (add_expr_sem _ _ _ _ _ a s r s' HI Hoff Hmx Hlex Hparse Hok Hrun)
+    as (x&->&HI'&He&Hoff'&Hmx'&Hx&HD).
   split; [|done]. f_equal.
   apply (canonical_names s' HI'); [done|by apply (valid_extends s s')|].
   intros ρ. rewrite HD, Hsem. symmetry. by apply denv_extends.
@@ -873,12 +888,12 @@ Qed.
 
 (** [add_expr(to_expr(u))] on the text itself *)
 Theorem to_expr_roundtrip_text s u :
-  Inv s → valid s u → last_len s = None →
+  Inv s → valid s u → last_len s = None → max_nodes s = None →
   ∃ txt, to_expr u s = (Ok txt, s) ∧
     ∀ r s', add_expr lex_alias reserved_words code_prec (split_formula txt) s = (r, s') →
-      r = Ok u ∧ Inv s' ∧ extends s s' ∧ last_len s' = None.
+      r = Ok u ∧ Inv s' ∧ extends s s' ∧ last_len s' = None ∧ max_nodes s' = None.
 Proof.
-  intros HI Hu Hoff.
+  intros HI Hu Hoff Hmx.
   destruct (to_expr_ast_spec (S (S (nvars s))) s u HI Hu) as (a&Ea&Hok&Hsem); [lia|].
   pose proof (to_expr_rec_text (S (S (nvars s))) u s) as Ht. rewrite Ea in Ht.
   destruct Ht as [Hshape Ht].
@@ -889,8 +904,8 @@ Proof.
   pose proof (lex_te a Hshape) as Hlex.
   pose proof (parse_te_tokens a (te_shape_wf a Hshape)) as Hparse.
   intros r s' Hrun.
-  destruct (add_expr_sem _ _ _ _ _ a s r s' HI Hoff Hlex Hparse Hok Hrun)
-    as (x&->&HI'&He&Hoff'&Hx&HD).
+  destruct (add_expr_sem _ _ _ _ _ a s r s' HI Hoff Hmx Hlex Hparse Hok Hrun)
+    as (x&->&HI'&He&Hoff'&Hmx'&Hx&HD).
   split; [|done]. f_equal.
   apply (canonical_names s' HI'); [done|by apply (valid_extends s s')|].
   intros ρ. rewrite HD, Hsem. symmetry. by apply denv_extends.
